@@ -9,6 +9,7 @@ from rules.lib import facts, panics as P
 
 F = facts.load()
 A = P.Audit(F)
+A.record_inlined = True
 for p in sorted(F.fns):
     if not F.fns[p].get("mir"):
         continue
@@ -21,6 +22,11 @@ for k, v in j["sites"].items():
     d = getattr(A, "descs", {}).get(k)
     if d is not None:
         v["desc"] = d
+        di = getattr(A, "descs_inl", {}).get(k)
+        if di is not None and di != d:
+            v["desc_inl"] = di
+        else:
+            v.pop("desc_inl", None)
         n += 1
 json.dump(j, open(path, "w"), indent=1, ensure_ascii=False)
 print("descriptions recorded for %d of %d entries" % (n, len(j["sites"])))
